@@ -1,4 +1,10 @@
+def _loom(tier, seed):
+    import importlib.util, os
+    sp = importlib.util.spec_from_file_location('c04', os.path.join(os.path.dirname(__file__), 'c04.py')); m = importlib.util.module_from_spec(sp); sp.loader.exec_module(m)
+    return m.loom_suite(tier, seed, only='exclusive_', expected='mutable access or ownership only for the sole owner, also after concurrent clones on other threads')
+
 SPEC = {
+    "custom": _loom,
  "id": "C02",
  "level": "proof",
  "props": [
